@@ -142,10 +142,34 @@ def register(R):
     R.monitor(CTRL, lock='_lock', fields=dict(_tracked_transfer_coordinators=SetT('U', elem_kind='coordinator')),
               invariant=lambda v, ref: {}, props=['C04', 'C18'])
     SHK = ObjT(CTRL, shared=True)
-    R.contract(f'{CTRL}.add_transfer_coordinator', props=['C04', 'C18'], self_type=SHK,
-               params=dict(transfer_coordinator=ExtT('coordinator')), raises={})
-    R.contract(f'{CTRL}.remove_transfer_coordinator', props=['C04', 'C18'], self_type=SHK,
-               params=dict(transfer_coordinator=ExtT('coordinator')), raises={'KeyError': lambda c: {}})
+    # tracked transfers are the ones shutdown waits for / cancels (C18, C07): add really adds, remove really removes
+    def ctrl_sets(c):
+        old = c.new.st.ghost.get(('mon_old', c.self.oid))
+        p0 = old.obj(old.obj(c.self).fields['_tracked_transfer_coordinators']).meta['present'] if old is not None else None
+        p1 = c.new.obj(c.newf('_tracked_transfer_coordinators')).meta['present']
+        return p0, p1
+    yy = z3.Const('yy_coord', U)
+
+    def ctrl_add_post(c):
+        p0, p1 = ctrl_sets(c)
+        if p0 is None:
+            return {'set_updated_under_its_lock': B(False)}
+        k = c.a_transfer_coordinator.term
+        return {'transfer_is_tracked_afterwards': z3.Select(p1, k),
+                'other_members_untouched': z3.ForAll([yy], z3.Implies(yy != k, z3.Select(p1, yy) == z3.Select(p0, yy)))}
+
+    def ctrl_rem_post(c):
+        p0, p1 = ctrl_sets(c)
+        if p0 is None:
+            return {'set_updated_under_its_lock': B(False)}
+        k = c.a_transfer_coordinator.term
+        return {'transfer_is_no_longer_tracked': z3.Not(z3.Select(p1, k)),
+                'other_members_untouched': z3.ForAll([yy], z3.Implies(yy != k, z3.Select(p1, yy) == z3.Select(p0, yy)))}
+
+    R.contract(f'{CTRL}.add_transfer_coordinator', props=['C04', 'C18', 'C07'], self_type=SHK, old_at='acquire',
+               params=dict(transfer_coordinator=ExtT('coordinator')), ensures=ctrl_add_post, raises={})
+    R.contract(f'{CTRL}.remove_transfer_coordinator', props=['C04', 'C18', 'C07'], self_type=SHK, old_at='acquire',
+               params=dict(transfer_coordinator=ExtT('coordinator')), ensures=ctrl_rem_post, raises={'KeyError': lambda c: {}})
 
 
 # functions whose lock discipline is checked under C04 (their own contracts live with other properties)
